@@ -1,12 +1,13 @@
 /-
   Csvq.Model.Scope — block scoping, user-defined function calls and control transfer (property C15).
 
-  (a) a small statement language (variables, PRINT, IF/ELSEIF/ELSE, WHILE, BREAK/CONTINUE/EXIT/RETURN,
+  (a) a small statement language (variables, PRINT, IF/ELSEIF/ELSE, WHILE, WHILE [VAR] @x IN cursor (the cursor
+      abstracted to the list of its remaining rows), BREAK/CONTINUE/EXIT/RETURN,
       scalar function declaration with optional parameters, (recursive) calls inside expressions);
   (b) `execImpl` — a fuel-indexed interpreter in the SHAPE OF THE GO CODE:
         lib/query/reference_scope.go   block stack innermost first; Get/Set/Dispose walk outward;
                                        CreateChild pushes a block, CloseCurrentBlock releases it
-        lib/query/processor.go         execute / executeChild / IfStmt / While, the StatementFlow enum and the
+        lib/query/processor.go         execute / executeChild / IfStmt / While / WhileInCursor, the StatementFlow enum and the
                                        `returnVal` field of the Processor
         lib/query/user_defined_function.go  Execute: child scope OF THE CALLER'S SCOPE (csvq is dynamically
                                        scoped: a function body sees the variables and functions visible at the
